@@ -65,8 +65,8 @@ pub fn expand(d: &Value) -> Vec<f64> {
         }
     }
     if let Some(p) = d.get("scale").and_then(|s| s.get("p")).and_then(|p| p.as_i64()) {
-        let f = (2f64).powi(p as i32);
-        for x in v.iter_mut() { *x *= f; }
+        // exact scaling, also into and out of the subnormal range (powi underflows to 0 below 2^-1022)
+        for x in v.iter_mut() { *x = enc::ldexp(*x, p); }
     }
     if d.get("neg").and_then(|b| b.as_bool()).unwrap_or(false) {
         for x in v.iter_mut() { *x = -*x; }
@@ -368,8 +368,10 @@ fn guard(f: impl FnOnce() -> Value) -> Value {
 
 /// all proportion front-ends for one (n, k, conf)
 fn prop_ci(case: &Value) -> Value {
-    let n = case["n"].as_u64().unwrap() as usize;
-    let k = case["k"].as_u64().unwrap() as usize;
+    // counts beyond the 32-bit integers of the validator are written a * 2^p
+    let big = |v: &Value| (v["a"].as_u64().unwrap() as usize) << v["p"].as_u64().unwrap();
+    let n = if case.get("nbig").is_some() { big(&case["nbig"]) } else { case["n"].as_u64().unwrap() as usize };
+    let k = if case.get("kbig").is_some() { big(&case["kbig"]) } else { case["k"].as_u64().unwrap() as usize };
     let mut ev = case.clone();
     let conf = match catch_unwind(|| mk_conf(&case["conf"])) {
         Ok(c) => c,
@@ -398,6 +400,8 @@ fn prop_ci(case: &Value) -> Value {
         }
         "stats_new" => ok_f64(proportion::Stats::new(n, k).ci(conf)),
         "stats_from_iter" => ok_f64(proportion::Stats::from_iter((0..n).map(|i| i < k)).ci(conf)),
+        // collected from an iterator whose size hint is only an upper bound (twice the population)
+        "stats_collect_filtered" => ok_f64((0..2 * n).filter(|i| i % 2 == 0).map(|i| i / 2 < k).collect::<proportion::Stats>().ci(conf)),
         "stats_extend" => {
             // two consecutive bulk calls on the same state
             let data: Vec<bool> = (0..n).map(|i| (i * 7 + 3) % n.max(1) < k).collect();
@@ -550,6 +554,14 @@ fn enc_iv_pos<T: PartialOrd + Clone>(r: Result<Interval<T>, CIError>, pos: &dyn 
     }
 }
 
+/// a container with holes: iterating a reference yields the present elements, size hint (0, Some(len))
+struct Sparse<T>(Vec<Option<T>>);
+impl<'a, T> IntoIterator for &'a Sparse<T> {
+    type Item = &'a T;
+    type IntoIter = std::iter::Flatten<std::slice::Iter<'a, Option<T>>>;
+    fn into_iter(self) -> Self::IntoIter { self.0.iter().flatten() }
+}
+
 /// data-level entry points.  "data" is a sequence of small integer keys (ties allowed) in the
 /// order to be supplied; elements are key-embedded into i32 / f64 / char / &str; results are
 /// mapped back to keys.
@@ -582,6 +594,11 @@ fn quant_data(case: &Value) -> Value {
                         let mut s = data.clone();
                         s.sort_by(|a, b| a.partial_cmp(b).unwrap());
                         quantile::ci_sorted_unchecked(conf, &s, q)
+                    }
+                    // a container whose by-reference iterator has no exact size hint (lower bound 0)
+                    "ci_sparse" => {
+                        let sp = Sparse(data.iter().flat_map(|x| [None, Some(x.clone())]).collect());
+                        quantile::ci(conf, &sp, q)
                     }
                     "max_n" => match data.len() {
                         // CAP = n exactly (const generics: a few fixed capacities)
@@ -643,7 +660,7 @@ fn quant_data(case: &Value) -> Value {
 pub fn run(case: &Value) -> Vec<Value> {
     let ev = match case["op"].as_str().unwrap() {
         "mean.ci" => if case["ty"] == "f32" { mean_ci::<f32>(case) } else { mean_ci::<f64>(case) },
-        "prop.ci" => prop_ci(case),
+        "prop.ci" | "prop.big" => prop_ci(case),
         "prop.sig" => prop_sig(case),
         "prop.stats_new" => prop_stats_new(case),
         "quant.ranks" => quant_ranks(case),
